@@ -12,10 +12,10 @@ thread_local ThreadPool::per_signal ThreadPool::my_box;
 }
 } // namespace galois
 
-#include "../../repo/libgalois/src/Barrier.cpp"
-#include "../../repo/libgalois/src/Barrier_Counting.cpp"
-#include "../../repo/libgalois/src/Barrier_MCS.cpp"
-#include "../../repo/libgalois/src/Barrier_Dissemination.cpp"
+#include "../src/Barrier.cpp"
+#include "../src/Barrier_Counting.cpp"
+#include "../src/Barrier_MCS.cpp"
+#include "../src/Barrier_Dissemination.cpp"
 
 extern "C" void vf_sched_counting(unsigned n, unsigned steps);
 extern "C" void vf_sched_counting1(unsigned n, unsigned steps);
